@@ -80,6 +80,7 @@ Proof.
 Qed.
 
 Section Advance.
+Variable memo : bool.
 Variable o : iopts.
 Variable u : oracle.
 Variable inp : bytes.
@@ -112,16 +113,16 @@ Qed.
 
 Lemma adv_backticks s s' n c :
   nth_error inp (pos s) = Some c -> beqb c x60 = true ->
-  handle_backticks inp lo s = Ok (s', n) -> pos s < pos s'.
+  handle_backticks memo inp lo s = Ok (s', n) -> pos s < pos s'.
 Proof.
   intros E0 Hc H. unfold handle_backticks in H.
   pose proof (count_eq_pos inp x60 (pos s) c E0 Hc) as Hn.
-  destruct (scan_to_closing_backtick inp (set_pos s (pos s + count_eq inp x60 (pos s))) (count_eq inp x60 (pos s))) as [e s2] eqn:Es.
+  destruct (scan_to_closing_backtick memo inp (set_pos s (pos s + count_eq inp x60 (pos s))) (count_eq inp x60 (pos s))) as [e s2] eqn:Es.
   destruct e as [endpos|].
   - assert (pos s + count_eq inp x60 (pos s) <= endpos) as Hge.
     { unfold scan_to_closing_backtick in Es.
       destruct (Nat.ltb maxbt (count_eq inp x60 (pos s))); [inversion Es|].
-      destruct (scanned _ && _); [inversion Es|].
+      destruct (_ && _ && _); [inversion Es|].
       cbn [pos set_pos] in Es.
       destruct (stcb_loop _ _ _ _ _) as [[r b'] sc] eqn:El. inversion Es; subst.
       apply stcb_loop_ge in El. exact El. }
@@ -295,9 +296,9 @@ Proof.
   pose proof (scan_ge o w r (N.succ (N.of_nat p))). lia.
 Qed.
 
-Theorem parse_inline_advances_lemma o u inp lo sl refmap maxref s s' :
+Theorem parse_inline_advances_lemma memo o u inp lo sl refmap maxref s s' :
   io_autolink o = false ->
-  parse_inline o u inp lo sl refmap maxref s = Ok (Some s') -> pos s < pos s'.
+  parse_inline memo o u inp lo sl refmap maxref s = Ok (Some s') -> pos s < pos s'.
 Proof.
   intros Ha H. unfold parse_inline in H.
   destruct (peek inp (pos s)) as [c|] eqn:Ec; [|discriminate]. unfold peek in Ec.
@@ -354,23 +355,104 @@ Proof.
   cbv zeta in H. unfold append in H. inv; fin.
 Qed.
 
-Lemma parse_inline_some_lt o u inp lo sl refmap maxref s s' :
-  parse_inline o u inp lo sl refmap maxref s = Ok (Some s') -> pos s < List.length inp.
+Lemma parse_inline_some_lt memo o u inp lo sl refmap maxref s s' :
+  parse_inline memo o u inp lo sl refmap maxref s = Ok (Some s') -> pos s < List.length inp.
 Proof.
   unfold parse_inline, peek. destruct (nth_error inp (pos s)) eqn:E; [|discriminate].
   intros _. apply nth_error_Some. congruence.
 Qed.
 
-Theorem inline_loop_fuel_lemma o u inp lo sl refmap maxref :
+Theorem inline_loop_fuel_lemma memo o u inp lo sl refmap maxref :
   io_autolink o = false ->
   forall fuel s, List.length inp - pos s < fuel ->
-    inline_loop o u inp lo sl refmap maxref fuel s = OutOfFuel ->
-    exists s', parse_inline o u inp lo sl refmap maxref s' = OutOfFuel.
+    inline_loop memo o u inp lo sl refmap maxref fuel s = OutOfFuel ->
+    exists s', parse_inline memo o u inp lo sl refmap maxref s' = OutOfFuel.
 Proof.
   intros Ha. induction fuel as [|f IH]; intros s Hf H; [lia|].
-  simpl in H. destruct (parse_inline o u inp lo sl refmap maxref s) as [[s'|]| |] eqn:E; cbn [bind] in H; try discriminate.
-  - pose proof (parse_inline_advances_lemma _ _ _ _ _ _ _ _ _ Ha E).
-    pose proof (parse_inline_some_lt _ _ _ _ _ _ _ _ _ E).
+  simpl in H. destruct (parse_inline memo o u inp lo sl refmap maxref s) as [[s'|]| |] eqn:E; cbn [bind] in H; try discriminate.
+  - pose proof (parse_inline_advances_lemma _ _ _ _ _ _ _ _ _ _ Ha E).
+    pose proof (parse_inline_some_lt _ _ _ _ _ _ _ _ _ _ E).
     apply (IH s'); [lia|exact H].
   - eauto.
 Qed.
+
+(* ------------------------------------------------------------------ the backtick memo (C06) *)
+Definition backtick_memo_sound_full_statement : Prop :=
+  forall o u content lo sl refmap maxref rs0,
+    run_inlines_gen true o u content lo sl refmap maxref rs0
+    = run_inlines_gen false o u content lo sl refmap maxref rs0.
+
+(* three backticks, a, a two-backtick span holding a single backtick, d, then a one-backtick span x *)
+Definition memo_witness : bytes :=
+  [x60; x60; x60; x20; x61; x20; x60; x60; x20; x62; x20; x60; x20; x63; x20; x60; x60; x20; x64; x20; x60; x20; x78; x20; x60].
+
+Lemma backtick_memo_refuted_lemma : ~ backtick_memo_sound_full_statement.
+Proof.
+  intro H. specialize (H io_default oracle_ascii memo_witness [0%N] 1%N [] 100000%N 0%N).
+  vm_compute in H. discriminate H.
+Qed.
+
+(* what the memo-free parser finds at the end of the witness and the parser with the memo does not *)
+Definition last_child (r : res outcome) : option node :=
+  match r with Ok (Done l _) => Some (last l (Node Document (mkSp 0 0 0 0) [])) | _ => None end.
+
+Lemma memo_witness_values :
+  last_child (run_inlines_gen false io_default oracle_ascii memo_witness [0%N] 1%N [] 100000%N 0%N)
+    = Some (Node (Code 1 [x78]) (mkSp 1 21 1 25) [])
+  /\ last_child (run_inlines_gen true io_default oracle_ascii memo_witness [0%N] 1%N [] 100000%N 0%N)
+    = Some (Node (Text [x60]) (mkSp 1 25 1 25) []).
+Proof. split; vm_compute; reflexivity. Qed.
+
+(* the memo only ever turns an answer into None; it never invents a closer *)
+Lemma backtick_memo_partial_lemma inp s otl :
+  fst (scan_to_closing_backtick true inp s otl) = None
+  \/ scan_to_closing_backtick true inp s otl = scan_to_closing_backtick false inp s otl.
+Proof.
+  unfold scan_to_closing_backtick. destruct (Nat.ltb maxbt otl); [left; reflexivity|].
+  cbn [andb]. destruct (scanned s && Nat.leb (nth otl (bt s) 0) (pos s)); [left; reflexivity|right; reflexivity].
+Qed.
+
+(* and without a completed scan (scanned_for_backticks = false) the memo is not consulted *)
+Lemma backtick_memo_unscanned inp s otl :
+  scanned s = false -> scan_to_closing_backtick true inp s otl = scan_to_closing_backtick false inp s otl.
+Proof. unfold scan_to_closing_backtick. intros ->. reflexivity. Qed.
+
+(* ------------------------------------------------------------------ node kinds (C04, inline half) *)
+From V Require Gen.Nodes.
+Definition ival (v : node_value) : bool :=
+  match v with
+  | Text _ | SoftBreak | LineBreak | Code _ _ | HtmlInline _ | Emph | Strong | Strikethrough | Superscript
+  | Link _ _ | Image _ _ | FootnoteReference _ _ _ | Math _ _ _ | Escaped | WikiLink _ | Underline | Subscript
+  | SpoileredText | EscapedTag _ => true
+  | _ => false
+  end.
+
+Fixpoint itree (n : node) : bool :=
+  match n with Node v _ ch => ival v && forallb itree ch end.
+
+(* an inline value may be a child of every block that holds inlines and of every inline the model nests under
+   (the table is regenerated from can_contain_type of src/nodes.rs) *)
+Lemma ival_can_contain v :
+  ival v = true ->
+  Gen.Nodes.can_contain KParagraph (kind_of v) = true /\ Gen.Nodes.can_contain KHeading (kind_of v) = true
+  /\ Gen.Nodes.can_contain KEmph (kind_of v) = true
+  /\ Gen.Nodes.can_contain KStrong (kind_of v) = true /\ Gen.Nodes.can_contain KLink (kind_of v) = true
+  /\ Gen.Nodes.can_contain KImage (kind_of v) = true /\ Gen.Nodes.can_contain KStrikethrough (kind_of v) = true
+  /\ Gen.Nodes.can_contain KSuperscript (kind_of v) = true /\ Gen.Nodes.can_contain KSubscript (kind_of v) = true
+  /\ Gen.Nodes.can_contain KUnderline (kind_of v) = true /\ Gen.Nodes.can_contain KSpoileredText (kind_of v) = true
+  /\ Gen.Nodes.can_contain KEscapedTag (kind_of v) = true /\ Gen.Nodes.can_contain KWikiLink (kind_of v) = true
+  /\ Gen.Nodes.can_contain KEscaped (kind_of v) = true.
+Proof. destruct v; intro H; try discriminate H; vm_compute; repeat split; reflexivity. Qed.
+
+(* a table cell takes every inline kind but the two breaks (its content is a single line) *)
+Lemma ival_can_contain_cell v :
+  ival v = true -> (match v with SoftBreak | LineBreak => false | _ => true end) = true ->
+  Gen.Nodes.can_contain KTableCell (kind_of v) = true.
+Proof. destruct v; intros H1 H2; try discriminate H1; try discriminate H2; reflexivity. Qed.
+
+Lemma emph_value_inline o c n : ival (emph_value o c n) = true.
+Proof. unfold emph_value. repeat match goal with |- context [if ?b then _ else _] => destruct b end; reflexivity. Qed.
+
+Definition inline_kinds_valid_full_statement : Prop :=
+  forall memo o u inp lo sl refmap maxref rs0 ch rs,
+    parse_inlines memo o u inp lo sl refmap maxref rs0 = Ok (ch, rs) -> forallb itree ch = true.
